@@ -587,6 +587,25 @@ extern "C" void sim_fail(const char* cls, const char* fmt, ...) {
   _exit(0);
 }
 
+// A "soft" violation does not end the run (so it cannot mask other checks): the first one is
+// remembered and reported when the run finishes cleanly.
+static char g_soft_cls[256];
+static char g_soft_msg[900];
+extern "C" void sim_soft_fail(const char* cls, const char* fmt, ...) {
+  if (g_soft_cls[0])
+    return;
+  va_list ap;
+  va_start(ap, fmt);
+  vsnprintf(g_soft_msg, sizeof g_soft_msg, fmt, ap);
+  va_end(ap);
+  snprintf(g_soft_cls, sizeof g_soft_cls, "%s", cls);
+  sim_event(99, 0, 0);
+}
+extern "C" void sim_report_soft(void) {
+  if (g_soft_cls[0])
+    sim_fail(g_soft_cls, "%s", g_soft_msg);
+}
+
 // ------------------------------------------------------------------------------------------
 // picking threads
 // ------------------------------------------------------------------------------------------
